@@ -21,8 +21,17 @@ type ReachResult struct {
 	Failures  []string
 }
 
-// ReachSchema explores the active sets reachable from the empty machine, up to budget sets.
-func ReachSchema(id string, sch *Schema, groups map[string][]int, budget int) ReachResult {
+// RawState: a state definition as written in the source (names), before Schema.Parse.
+type RawState struct {
+	Auto, Multi                 bool
+	Require, Add, Remove, After []string
+}
+
+// ReachSchema explores the active sets reachable from the empty machine, up to budget sets. With
+// `raw` (the schema as shipped) the machine is made from the raw definitions - New runs the
+// current Schema.Parse on them - and Require closure is judged against the Require relation as
+// written, not against what Parse made of it.
+func ReachSchema(id string, sch *Schema, groups map[string][]int, budget int, raw map[string]RawState) ReachResult {
 	var res ReachResult
 	n := len(sch.Names)
 	s := am.Schema{}
@@ -37,6 +46,34 @@ func ReachSchema(id string, sch *Schema, groups map[string][]int, budget int) Re
 	}
 	for i, d := range sch.Defs {
 		s[sch.Names[i]] = am.State{Auto: d.Auto, Multi: d.Multi, Require: pick(d.Require), Add: pick(d.Add), Remove: pick(d.Remove), After: pick(d.After)}
+	}
+	idx := map[string]int{}
+	for i, nm := range sch.Names {
+		idx[nm] = i
+	}
+	rawReq := make([][]int, n)
+	if raw != nil {
+		known := func(l []string) am.S {
+			var o am.S
+			for _, x := range l {
+				if _, ok := idx[x]; ok {
+					o = append(o, x)
+				}
+			}
+			return o
+		}
+		for nm, d := range raw {
+			i, ok := idx[nm]
+			if !ok {
+				continue
+			}
+			s[nm] = am.State{Auto: d.Auto, Multi: d.Multi, Require: known(d.Require), Add: known(d.Add), Remove: known(d.Remove), After: known(d.After)}
+			for _, x := range d.Require {
+				if j, ok := idx[x]; ok {
+					rawReq[i] = append(rawReq[i], j)
+				}
+			}
+		}
 	}
 	ctx, cancel := context.WithCancel(context.Background())
 	defer cancel()
@@ -59,6 +96,11 @@ func ReachSchema(id string, sch *Schema, groups map[string][]int, budget int) Re
 				}
 				if !active[r] {
 					return fmt.Sprintf("%s is active without its Require %s", sch.Names[i], sch.Names[r])
+				}
+			}
+			for _, r := range rawReq[i] {
+				if !active[r] {
+					return fmt.Sprintf("%s is active without %s, which the shipped schema Requires", sch.Names[i], sch.Names[r])
 				}
 			}
 		}
